@@ -861,7 +861,7 @@ class TrigTime:
                 end, fixed_date_end = await cls.parse_date_time(end_str, 0, now, startup_time)
                 if not fixed_date_start and not fixed_date_end:
                     end_offset = 1 if end < start else 0
-                    day_dither = [-1, 0, 1]
+                    day_dither = [-1, 0, 1, 2]  # +2: a start with a negative offset lies on the previous day
                 else:
                     end_offset = 0
                     day_dither = [0]
